@@ -2085,16 +2085,12 @@ func string_split(_ *Thread, b *Builtin, args Tuple, kwargs []Tuple) (Value, err
 			return nil, fmt.Errorf("split: empty separator")
 		}
 		// usual case: split on non-empty separator
-		if maxsplit < 0 {
+		if b.Name() == "rsplit" {
+			res = rsplit(recv, sep, maxsplit)
+		} else if maxsplit < 0 {
 			res = strings.Split(recv, sep)
-		} else if b.Name() == "split" {
+		} else {
 			res = strings.SplitN(recv, sep, maxsplit+1)
-		} else { // rsplit
-			res = strings.Split(recv, sep)
-			if excess := len(res) - maxsplit; excess > 0 {
-				res[0] = strings.Join(res[:excess], sep)
-				res = append(res[:1], res[excess:]...)
-			}
 		}
 
 	} else {
@@ -2106,6 +2102,26 @@ func string_split(_ *Thread, b *Builtin, args Tuple, kwargs []Tuple) (Value, err
 		list[i] = String(x)
 	}
 	return NewList(list), nil
+}
+
+// rsplit splits s around occurrences of sep (non-empty), choosing
+// the rightmost splits; max < 0 means no limit.
+func rsplit(s, sep string, max int) []string {
+	var res []string
+	for max != 0 {
+		i := strings.LastIndex(s, sep)
+		if i < 0 {
+			break
+		}
+		res = append(res, s[i+len(sep):])
+		s = s[:i]
+		max--
+	}
+	res = append(res, s)
+	for i, j := 0, len(res)-1; i < j; i, j = i+1, j-1 {
+		res[i], res[j] = res[j], res[i]
+	}
+	return res
 }
 
 // Precondition: max >= 0.
